@@ -71,7 +71,9 @@ func CheckC13(p *Pkg, e *Env, r *res.Result) {
 		r.NonTrivial("C13", p.Index, "served")
 	}
 	// near misses are never answered by the spec handler: they follow plain routing
-	for _, path := range []string{specURL + "x", specURL + "/", p.BasePath + "x/" + p.Cfg.ServedSpecName(), "/" + p.Cfg.ServedSpecName() + "/extra", p.BasePath + "/" + p.Cfg.ServedSpecName()[:len(p.Cfg.ServedSpecName())-1]} {
+	for _, path := range []string{specURL + "x", specURL + "/", p.BasePath + "x/" + p.Cfg.ServedSpecName(), "/" + p.Cfg.ServedSpecName() + "/extra", p.BasePath + "/" + p.Cfg.ServedSpecName()[:len(p.Cfg.ServedSpecName())-1],
+		// deeper paths that merely end in the spec name, and the spec name under a doubled base
+		p.BasePath + "/a/" + p.Cfg.ServedSpecName(), p.BasePath + "/a/b/" + p.Cfg.ServedSpecName(), p.BasePath + p.BasePath + "/" + p.Cfg.ServedSpecName(), p.BasePath + "//" + p.Cfg.ServedSpecName()} {
 		if path == specURL || !strings.HasPrefix(path, "/") {
 			continue // r.URL.Path of a deliverable request begins with "/"
 		}
